@@ -28,7 +28,16 @@
    * A poll of a SchedulerFuture that is going to return Ready removes the caller's await / drop-loop continuation frame at the
      step that takes the result ([pop_cont]); the lock-free return path has no steps of its own.
    * An external event cell keeps EVERY waker registered with it until it is fired (stale wakers from earlier polls included; the
-     real oneshot keeps only the latest).  Events outside the configured range count as already fired.
+     real oneshot keeps only the latest) and calls them OLDEST registration first when it fires.  Events outside the configured
+     range count as already fired.  [PAwaitEither e1 e2] (select) registers the context waker with both events in ONE step (the
+     harness's EitherFut checks and registers in four small sections; a fire in between makes it wake itself, which is the same
+     as being registered and fired): the waker left with the event that fires second is a stale waker of a possibly FINISHED
+     operation (e.g. the WakeThread waker of a sync caller that has returned).
+   * ORDER FACTS: four of the hand-written order decisions are a parameter ([ffacts], [stepF], below [would_panic]); [step] is
+     the model with the code's facts.
+   * thread::park returns only with the unpark token ([FPark], [FROpark]); spurious returns (allowed by std, produced by the
+     controlled runtime) are not modelled: in run_one_job_now they only re-read the state, which matters only after a stale
+     WakeThread waker has written Running over WaitingForUnpark (the caller then re-polls without having been unparked).
    * ABSTRACTED: the pool ([FPIdle] may take a schedule entry whenever insched > 0; L1 proves the hand-over); schedule_thread;
      sync_background's wait (blocked until the job has been run; the steal path is L1's); private result mutex / condvar of sync.
    * OMITTED: the signaller's Drop (Canceled) - a queued job is never dropped here; future_sync; try_sync; several queues;
@@ -52,7 +61,9 @@ Record ftables := {
 }.
 
 Inductive waker := WQueue | WThread (c : nat) | WDrain (d : nat) | WTask (c : nat) | WDouble (k : nat).
-Inductive fprim := PAwait (e : nat) | PSignal (f : nat) | PTouch.
+(* PAwaitEither e1 e2: select-style await, ready when either event has fired; while pending the waker is registered with BOTH
+   events, so the event that fires second calls a stale waker (possibly long after the operation has finished) *)
+Inductive fprim := PAwait (e : nat) | PSignal (f : nat) | PTouch | PAwaitEither (e1 e2 : nat).
 Inductive jstate := NotCreated | Waiting.
 (* JSync: the job pushed by sync_drain / sync_background of caller c; tk = Some f for SchedulerFuture::sync() (closure = take f) *)
 Inductive job := JPlain (op : nat) | JFut (op : nat) (st : jstate) (script : list fprim) | JSync (op c : nat) (tk : option nat).
@@ -100,7 +111,9 @@ Inductive frame :=
 (* polling a job with a context waker *)
 | FJob (j : job) (w : waker) (k : kont)
 (* waker calls *)
-| FWake (w : waker) | FUnpark (c : nat).
+| FWake (w : waker) | FUnpark (c : nat)
+(* only in the variant order "requeue after wake_with" of [stepF] (fact f_requeue_before_park false): the late requeue *)
+| FDQlate (j : job).
 
 Inductive gev := GPush (o : nat) | GStart (o : nat) | GFinish (o : nat) | GSig (f v : nat) | GResolve (f v : nat).
 
@@ -189,6 +202,10 @@ Definition step_job (s : state) (a : nat) (rest : list frame) (j : job) (w : wak
       let c := getev s e in
       if c.(fired) then Some (setstack s a (FJob (JFut op Waiting r) w k :: rest))
       else Some (setstack (setev s e (c <| wakers := w :: c.(wakers) |>)) a (ret_pending k j :: rest))
+  | JFut op Waiting (PAwaitEither e1 e2 :: r) =>
+      if (getev s e1).(fired) || (getev s e2).(fired) then Some (setstack s a (FJob (JFut op Waiting r) w k :: rest))
+      else let s1 := setev s e1 (getev s e1 <| wakers := w :: (getev s e1).(wakers) |>) in
+           Some (setstack (setev s1 e2 (getev s1 e2 <| wakers := w :: (getev s1 e2).(wakers) |>)) a (ret_pending k j :: rest))
   | JFut op Waiting (PSignal f :: r) =>
       let c := getf s f in
       let s1 := addlog (setf s f {| res := FSome op; fwaker := None |}) [GSig f op] in
@@ -408,10 +425,11 @@ Definition step_caller (T : ftables) (s : state) (a : nat) (tok : bool) (rest : 
       | Some (s1, Some v) => Some (setstack s1 a rest)
       | Some (_, None) => goto (s <| nextop := S s.(nextop) |>) (FS1 s.(nextop) (Some f))
       end
-  | FFire e =>                                        (* [ev e] fired := true, take the wakers; then call them *)
+  | FFire e =>                      (* [ev e] fired := true, take the wakers; then call them, oldest registration first *)
       let c := getev s e in
-      Some (setstack (setev s e {| fired := true; wakers := [] |}) a (wake_frames c.(wakers) ++ rest))
+      Some (setstack (setev s e {| fired := true; wakers := [] |}) a (wake_frames (rev c.(wakers)) ++ rest))
   | FUnpark c => Some (setstack (settoken s c true) a rest)
+  | FDQlate j => Some (setstack s a rest)   (* never pushed with the code's facts (only by [stepF], which overrides this step) *)
   | _ => None
   end.
 
@@ -448,7 +466,7 @@ Definition frame_label (fr : frame) : lockclass * nat :=
   | FClosure _ (Some f) | FJob (JSync _ _ (Some f)) _ _ | FJob (JFut _ Waiting (PSignal f :: _)) _ _ => (LFres, f)
   | FWakeWith d _ | FWake (WDrain d) => (LDw, d)
   | FWake (WDouble k) => (LDbl, k)
-  | FFire e | FJob (JFut _ Waiting (PAwait e :: _)) _ _ => (LEv, e)
+  | FFire e | FJob (JFut _ Waiting (PAwait e :: _)) _ _ | FJob (JFut _ Waiting (PAwaitEither e _ :: _)) _ _ => (LEv, e)
   | _ => (LNone, 0)
   end.
 Definition step_label (s : state) (a : nat) : option (lockclass * nat) :=
@@ -478,6 +496,80 @@ Definition would_panic (T : ftables) (s : state) (a : nat) : bool :=
     | _ => false end
   | None => false
   end.
+
+(* ==================================================================================================================================
+   ORDER FACTS.  Four hand-written order decisions of [step] as a parameter: [stepF F T] is [step T] when every fact of F is true
+   ([code_ffacts]; L2/Facts.v proves stepF code_ffacts T = step T, so every theorem about [run T] is a theorem about
+   [runF code_ffacts T]), and the variant order when a fact is false (L2/Refute.v: with the fact false the property fails).
+     f_park_before_wake_with       drain_queue's Pending arm writes the parked state (WaitingForWake / WaitingForPoll self.id)
+                                   BEFORE waker.wake_with(..)            variant: wake_with first, the state write after it
+     f_requeue_before_park         the Pending job is put back at the front of the queue BEFORE the state write and wake_with
+                                                                          variant: requeue after wake_with ([FDQlate j])
+     f_future_drop_inert           dropping a SchedulerFuture does nothing ([FUse f (UDropAfter 0)] only pops)
+                                   variant: Drop does `if self.draining { state := Idle; reschedule_queue }`, draining = the last
+                                   poll left the queue in WaitingForPoll(self.id) (not cleared when a pool thread takes the queue
+                                   over): the drop after such a last poll is the frame [FDQidle f]
+     f_wake_thread_unparks_always  WakeThread::wake unparks its thread whatever state it found
+                                   variant: unpark only when it found WaitingForUnpark *)
+Record ffacts := { f_park_before_wake_with : bool; f_requeue_before_park : bool; f_future_drop_inert : bool;
+                   f_wake_thread_unparks_always : bool }.
+Definition code_ffacts : ffacts :=
+  {| f_park_before_wake_with := true; f_requeue_before_park := true; f_future_drop_inert := true; f_wake_thread_unparks_always := true |}.
+
+(* variant f_requeue_before_park = false: the continuation frame of the poll lies below the late requeue *)
+Definition pop_contF (rest : list frame) : list frame :=
+  match rest with FDQlate j :: r => FDQlate j :: pop_cont r | _ => pop_cont rest end.
+(* variant f_future_drop_inert = false: this poll is the last one of a poll-and-drop loop and leaves the queue in WaitingForPoll:
+   the drop that follows resets the queue state *)
+Definition mark_drop (f : nat) (rest : list frame) : list frame :=
+  match rest with
+  | FDropRet _ 0 :: r => FDQidle f :: r
+  | FDQlate j :: FDropRet _ 0 :: r => FDQlate j :: FDQidle f :: r
+  | _ => rest
+  end.
+
+Definition stepF (F : ffacts) (T : ftables) (s : state) (a : nat) : option state :=
+  match s.(actors) !! a with
+  | None => None
+  | Some ac =>
+    match ac.(stack) with
+    | FWake (WThread c) :: rest =>
+        if F.(f_wake_thread_unparks_always) then step T s a
+        else Some (setstack (s <| qs := T.(t_wake_thread) s.(qs) |>) a (if is_wfu s.(qs) then FUnpark c :: rest else rest))
+    | FDQrequeue f d j :: rest =>
+        if F.(f_requeue_before_park) then step T s a else Some (setstack s a (FDQtake2 f d :: FDQlate j :: rest))
+    | FDQlate j :: rest =>
+        if F.(f_requeue_before_park) then step T s a else Some (setstack (s <| jobs := j :: s.(jobs) |>) a rest)
+    | FDQtake2 f d :: rest =>
+        if F.(f_park_before_wake_with) && F.(f_requeue_before_park) then step T s a
+        else match take_f s f with
+             | None => None
+             | Some (s1, Some v) =>
+                 if F.(f_park_before_wake_with) then Some (setstack s1 a (FDQwfw f d :: pop_contF rest))
+                 else Some (setstack s1 a (FWakeWith d WQueue :: FDQwfw f d :: pop_contF rest))
+             | Some (_, None) => Some (setstack s a (FDQstore f d :: rest))
+             end
+    | FDQwfw f d :: rest =>
+        if F.(f_park_before_wake_with) then step T s a else Some (setstack (s <| qs := WaitingForWake |>) a rest)
+    | FDQstore f d :: rest =>
+        if F.(f_park_before_wake_with) then step T s a
+        else let k := length s.(dbl) in
+             let s1 := setf s f (getf s f <| fwaker := Some (WTask a) |>) <| dbl := s.(dbl) ++ [Some (WQueue, WTask a)] |> in
+             Some (setstack s1 a (FWakeWith d (WDouble k) :: FDQwfp f d :: rest))
+    | FDQwfp f d :: rest =>
+        if F.(f_park_before_wake_with) && F.(f_future_drop_inert) then step T s a
+        else let rest' := if F.(f_future_drop_inert) then rest else mark_drop f rest in
+             if F.(f_park_before_wake_with)
+             then let k := length s.(dbl) in
+                  Some (setstack (s <| qs := WaitingForPoll f |> <| dbl := s.(dbl) ++ [Some (WQueue, WTask a)] |>) a
+                          (FWakeWith d (WDouble k) :: rest'))
+             else Some (setstack (s <| qs := WaitingForPoll f |>) a rest')
+    | _ => step T s a
+    end
+  end.
+Definition runF (F : ffacts) (T : ftables) (s : state) (tr : list nat) : option state :=
+  foldl (fun os a => o ← os; stepF F T o a) (Some s) tr.
+Definition terminalF (F : ffacts) (T : ftables) (s : state) : Prop := forall a, stepF F T s a = None.
 
 (* ==================================================================================================================================
    MAPPING  model frame -> logged critical sections   (for a log-replay driver of this layer; same conventions as the L1 driver
@@ -520,6 +612,9 @@ Definition would_panic (T : ftables) (s : state) (a : nat) : bool :=
      JFut op Waiting []   silent (Poll::Ready)
      JFut .. (PTouch::_)  silent
      JFut .. (PAwait e::_) at Ev e
+     JFut .. (PAwaitEither e1 e2::_)   at Ev e1 ; the harness future locks Ev e1, Ev e2 (check) and, when neither has fired,
+                          Ev e1, Ev e2 again (register); one model step
+     FDQlate j            (variant order of stepF only) at Core - requeue
      JFut .. (PSignal f::_) at Fres f  (the waker call follows as FWake frames on the same thread)
      every FJob step that RETURNS READY with k = KRoj: post DA Core (run_one_job_now asserts is_running after the poll loop)
    sync (caller a)
